@@ -168,22 +168,90 @@ def ev(S, F, x, asg, tabs=None):
                 return max(a, b)
             if op == "abs_diff":
                 return abs(a - b)
+        if asg.get("symbolic"):
+            vals = [ev(S, F, a, asg, tabs) for a in args]
+            short = path.rsplit("::", 1)[-1]
+            # Option / Result combinators on structured values
+            if path.startswith(("core::option::Option", "core::result::Result")) and vals and isinstance(vals[0], tuple):
+                v0 = vals[0]
+                apply = lambda f, a: ("app", f[1], a) if isinstance(f, tuple) and f and f[0] == "fn" else ("app", f, a)
+                if short == "ok_or" and v0[0] in ("Some", "None"):
+                    return ("Ok", v0[1]) if v0[0] == "Some" else ("Err", vals[1])
+                if short == "ok" and v0[0] in ("Ok", "Err"):
+                    return ("Some", v0[1]) if v0[0] == "Ok" else ("None",)
+                if short == "map" and v0[0] in ("Ok", "Some"):
+                    return (v0[0], apply(vals[1], v0[1]))
+                if short == "map" and v0[0] in ("Err", "None"):
+                    return v0
+                if short == "map_err" and v0[0] == "Err":
+                    return ("Err", apply(vals[1], v0[1]))
+                if short == "map_err" and v0[0] == "Ok":
+                    return v0
+                if short == "unwrap_or" and v0[0] in ("Ok", "Some"):
+                    return v0[1]
+                if short == "unwrap_or" and v0[0] in ("Err", "None"):
+                    return vals[1]
+                if short == "is_some":
+                    return int(v0[0] == "Some")
+                if short == "is_none":
+                    return int(v0[0] == "None")
+                if short == "is_ok":
+                    return int(v0[0] == "Ok")
+                if short == "is_err":
+                    return int(v0[0] == "Err")
+            if path.endswith("Try>::branch") and vals and isinstance(vals[0], tuple) and vals[0][0] in ("Ok", "Err", "Some", "None"):
+                v0 = vals[0]
+                return ("adt", "core::ops::ControlFlow::Continue", v0[1]) if v0[0] in ("Ok", "Some") else ("adt", "core::ops::ControlFlow::Break", v0)
+            return ("app", path, tuple(vals)) if len(vals) != 1 else ("app", path, vals[0])
         raise Unknown("call %s" % path)
     if k == "agg":
         if x[1].endswith("Option::Some"):
             return ("Some", ev(S, F, x[2][0], asg, tabs))
         if x[1].endswith("Option::None"):
             return ("None",)
+        if x[1].endswith("Result::Ok"):
+            return ("Ok", ev(S, F, x[2][0], asg, tabs))
+        if x[1].endswith("Result::Err"):
+            return ("Err", ev(S, F, x[2][0], asg, tabs))
         if x[1] == "tuple":
             return tuple(ev(S, F, y, asg, tabs) for y in x[2])
+        if asg.get("symbolic") and x[1].startswith("adt:"):
+            return ("adt", x[1][4:]) + tuple(ev(S, F, y, asg, tabs) for y in x[2])
         raise Unknown("aggregate %s" % x[1])
+    if k == "discr":
+        v = ev(S, F, x[1], asg, tabs)
+        if isinstance(v, tuple) and v and v[0] in ("None", "Some", "Ok", "Err"):
+            return {"None": 0, "Some": 1, "Ok": 0, "Err": 1}[v[0]]
+        if isinstance(v, tuple) and v and v[0] == "adt":
+            info = S.enums.get(x[1]) if hasattr(S, "enums") else None
+            if info:
+                for val, nm in info[1].items():
+                    if v[1].endswith("::" + nm):
+                        return val
+        raise Unknown("discriminant of %s" % (v,))
+    if k == "variant":
+        # payload access is through field(variant(x, name), i)
+        v = ev(S, F, x[1], asg, tabs)
+        return v
+    if k == "fn":
+        return ("fn", x[1])
     if k == "field" and isinstance(x[2], int):
         v = ev(S, F, x[1], asg, tabs)
+        if x[1][0] == "variant" and isinstance(v, tuple) and v and v[0] in ("Some", "Ok", "Err") and x[2] == 0:
+            if v[0] != x[1][2]:
+                raise Unknown("payload of %s read as %s" % (v[0], x[1][2]))
+            return v[1]
+        if isinstance(v, tuple) and v and v[0] == "adt":
+            return v[2 + x[2]]
         if isinstance(v, tuple) and x[2] < len(v):
             return v[x[2]]
         raise Unknown("field of %s" % sym.fmt(n(x[1]))[:60])
-    if k in ("ref", "val"):
+    if k in ("ref", "val", "deref", "rawptr"):
         return ev(S, F, x[-1], asg, tabs)
+    if k == "len":
+        hook = (asg.get("calls") or {}).get("core::slice::<impl [T]>::len")
+        if hook is not None:
+            return hook(ev(S, F, x[1], asg, tabs))
     raise Unknown(sym.fmt(n(x))[:80])
 
 
